@@ -988,6 +988,27 @@ def install(ex):
             if not is_all and r:
                 return True
 
+    @M(r'^<.* as Iterator>::try_for_each::<')
+    def iter_try_for_each(ex, c, a):
+        it = a[0].get() if isinstance(a[0], Ref) else a[0]
+        rty = split_generic(re.search(r'try_for_each::<(.*)>$', c).group(1))[-1].strip()
+        while True:
+            nx = any_next(ex, it, c)
+            if nx.variant == 0:
+                break
+            r = ex.call_closure(a[1], [nx.f[0]])
+            if isinstance(r, Agg) and r.ty == 'Option' and r.variant == 0:
+                return r
+            if isinstance(r, Agg) and r.ty == 'Result' and r.variant == 1:
+                return r
+            if isinstance(r, Agg) and r.ty == 'ControlFlow' and r.variant == 1:
+                return r
+        if rty.startswith('Option') or rty.startswith('std::option::Option'):
+            return some(UNIT)
+        if rty.startswith('Result') or rty.startswith('std::result::Result'):
+            return ok(UNIT)
+        return Agg('ControlFlow', {0: UNIT}, 0)
+
     @M(r'^<.* as Iterator>::for_each::<')
     def iter_for_each(ex, c, a):
         it = a[0]
